@@ -87,8 +87,9 @@ type Client struct {
 	PeerEOF bool // the proxy closed it
 	Garbage bool
 	raw     bool
-	Paused  bool   // a slow reader: does not read until resumed
-	Held    []byte // the rest of a write of which only the first part has been sent ("send" with kind "hold")
+	Paused  bool    // a slow reader: does not read until resumed
+	Held    []byte  // the rest of a write of which only the first part has been sent ("send" with kind "hold")
+	HeldEvs []Event // the "send" lines of the requests that the rest completes
 	writing int32
 }
 
